@@ -1,6 +1,199 @@
-use crate::util::Opts;
+//! trans: replay TLC-emitted operation histories (MC_Transition) on the real Transition API.
+//!
+//! Input: first line {"pool": {"input", "veh": [{"id", "ix", "alts": [[node ids]]}], "probe": [node ids]}},
+//! following lines {"case": n, "hist": [op], "next": [op]} with op = {"op", "args"}.
+//! For each case the history is replayed from the empty transition; the state reached and the
+//! state after each single `next` operation are logged (cycles, cached counters, totals,
+//! successor probe, empty-cycle probe).
 
-pub fn run(_opts: &Opts) -> i32 {
-    eprintln!("not implemented yet");
-    2
+use std::collections::HashMap;
+use std::sync::Arc;
+
+use im::HashMap as ImHashMap;
+use model::base_types::{NodeIdx, VehicleIdx};
+use model::json_serialisation::load_rolling_stock_problem_instance_from_json;
+use model::network::Network;
+use serde_json::{json, Value};
+use solution::tour::Tour;
+use solution::transition::Transition;
+use solution::Schedule;
+
+use crate::netdump::nid;
+use crate::util::{guarded, read_lines, Opts, Out};
+
+struct Pool {
+    nw: Arc<Network>,
+    alts: HashMap<String, Vec<Tour>>,
+    ix: HashMap<String, u16>,
+    probe: Tour,
+}
+
+fn materialise(nw: &Arc<Network>, nodes: &[NodeIdx]) -> Tour {
+    let vt = nw.vehicle_types().iter().next().unwrap();
+    let s = Schedule::empty(nw.clone());
+    let (s1, v) = s.spawn_vehicle_for_path(vt, nodes.to_vec()).unwrap();
+    let t = s1.tour_of(v).unwrap().clone();
+    let got: Vec<NodeIdx> = t.all_nodes_iter().collect();
+    assert_eq!(got, nodes.to_vec(), "pool tour could not be materialised as given");
+    t
+}
+
+#[derive(Clone)]
+struct State {
+    t: Transition,
+    tours: ImHashMap<VehicleIdx, Tour>,
+    cur: Vec<(String, u64)>,
+}
+
+fn vid(pool: &Pool, id: &str) -> VehicleIdx {
+    VehicleIdx::vehicle_from(pool.ix[id])
+}
+
+fn apply(pool: &Pool, st: &State, op: &Value) -> State {
+    let nw = &pool.nw;
+    let name = op["op"].as_str().unwrap();
+    let a = op["args"].as_array().unwrap();
+    let mut st = st.clone();
+    let none: ImHashMap<VehicleIdx, &Tour> = ImHashMap::new();
+    let set_cur = |cur: &mut Vec<(String, u64)>, v: &str, k: u64| {
+        cur.retain(|(x, _)| x != v);
+        cur.push((v.to_string(), k));
+    };
+    match name {
+        "update" => {
+            let v = a[0].as_str().unwrap();
+            let k = a[1].as_u64().unwrap();
+            let new = pool.alts[v][(k - 1) as usize].clone();
+            st.t = st.t.update_vehicle(vid(pool, v), &new, &none, &st.tours, nw);
+            st.tours.insert(vid(pool, v), new);
+            set_cur(&mut st.cur, v, k);
+        }
+        "add_own" => {
+            let v = a[0].as_str().unwrap();
+            let k = a[1].as_u64().unwrap();
+            let new = pool.alts[v][(k - 1) as usize].clone();
+            st.t = st.t.add_vehicle_to_own_cycle(vid(pool, v), &new, nw);
+            st.tours.insert(vid(pool, v), new);
+            set_cur(&mut st.cur, v, k);
+        }
+        "remove" => {
+            let v = a[0].as_str().unwrap();
+            st.t = st.t.remove_vehicle(vid(pool, v), &none, &st.tours, nw);
+            st.tours.remove(&vid(pool, v));
+            st.cur.retain(|(x, _)| x != v);
+        }
+        "add_end" => {
+            let v = a[0].as_str().unwrap();
+            let k = a[1].as_u64().unwrap();
+            let c = a[2].as_u64().unwrap() as usize - 1;
+            let new = pool.alts[v][(k - 1) as usize].clone();
+            st.tours.insert(vid(pool, v), new);
+            st.t = st.t.add_vehicle_at_the_end(vid(pool, v), c, &none, &st.tours, nw);
+            set_cur(&mut st.cur, v, k);
+        }
+        "move" => {
+            let v = a[0].as_str().unwrap();
+            let c = a[1].as_u64().unwrap() as usize - 1;
+            st.t = st.t.move_vehicle(vid(pool, v), c, &st.tours, nw);
+        }
+        "three_opt" => {
+            let c = a[0].as_u64().unwrap() as usize - 1;
+            let (i, j, k) = (a[1].as_u64().unwrap() as usize, a[2].as_u64().unwrap() as usize, a[3].as_u64().unwrap() as usize);
+            let cyc = st.t.get_cycle(c).three_opt(i, j, k, &st.tours, nw);
+            st.t = st.t.replace_cycle(c, cyc);
+        }
+        other => panic!("unknown op {}", other),
+    }
+    st
+}
+
+fn observe(pool: &Pool, st: &State) -> Value {
+    let t = &st.t;
+    let cyc: Vec<Value> = t.cycles_iter().map(|c| json!(c.iter().map(|v| v.to_string()).collect::<Vec<_>>())).collect();
+    let cnt: Vec<i64> = t.cycles_iter().map(|c| c.maintenance_counter()).collect();
+    let mut cur = st.cur.clone();
+    cur.sort();
+    let succ: Vec<Value> = cur
+        .iter()
+        .map(|(v, _)| {
+            let s = guarded(|| t.get_successor_of(vid(pool, v))).map(|x| x.to_string()).unwrap_or_else(|_| "?".into());
+            json!({"v": v, "s": s})
+        })
+        .collect();
+    // probe the stack of reusable cycles: add fresh vehicles until a new cycle is appended
+    let mut probe = Vec::new();
+    let mut tt = t.clone();
+    let n = t.number_of_cycles();
+    for i in 0..(n + 1) {
+        let pv = VehicleIdx::vehicle_from(1000 + i as u16);
+        let r = guarded(|| tt.add_vehicle_to_own_cycle(pv, &pool.probe, &pool.nw));
+        match r {
+            Ok(nt) => {
+                let idx = nt.cycles_iter().position(|c| c.iter().any(|x| x == pv)).map(|x| x as i64 + 1).unwrap_or(-1);
+                let lost: usize = nt.cycles_iter().map(|c| c.len()).sum::<usize>();
+                probe.push(json!({"idx": idx, "members": lost}));
+                let appended = nt.number_of_cycles() > tt.number_of_cycles();
+                tt = nt;
+                if appended {
+                    break;
+                }
+            }
+            Err(_) => {
+                probe.push(json!({"idx": -2, "members": 0}));
+                break;
+            }
+        }
+    }
+    json!({
+        "cyc": cyc, "c": cnt, "viol": t.maintenance_violation(), "cnt": t.maintenance_counter(),
+        "succ": succ, "cur": cur.iter().map(|(v, k)| json!({"v": v, "k": k})).collect::<Vec<_>>(),
+        "probe": probe, "ncyc": n,
+    })
+}
+
+pub fn run(opts: &Opts) -> i32 {
+    let lines = read_lines(opts.req("in"));
+    let mut out = Out::create(opts.req("out"));
+    let p = &lines[0]["pool"];
+    let nw = load_rolling_stock_problem_instance_from_json(p["input"].clone());
+    let map: HashMap<String, NodeIdx> = nw.all_nodes().map(|n| (nid(&nw, n), n)).collect();
+    let resolve = |v: &Value| -> Vec<NodeIdx> { v.as_array().unwrap().iter().map(|x| map[x.as_str().unwrap()]).collect() };
+    let mut alts = HashMap::new();
+    let mut ix = HashMap::new();
+    for v in p["veh"].as_array().unwrap() {
+        let id = v["id"].as_str().unwrap().to_string();
+        ix.insert(id.clone(), v["ix"].as_u64().unwrap() as u16);
+        alts.insert(id, v["alts"].as_array().unwrap().iter().map(|a| materialise(&nw, &resolve(a))).collect::<Vec<_>>());
+    }
+    let pool = Pool { nw: nw.clone(), alts, ix, probe: materialise(&nw, &resolve(&p["probe"])) };
+    for case in lines.iter().skip(1) {
+        let n = case["case"].as_u64().unwrap();
+        let start = State { t: Transition::new_fast(&[], &ImHashMap::new(), &nw), tours: ImHashMap::new(), cur: Vec::new() };
+        let replay = guarded(|| {
+            let mut st = start.clone();
+            for op in case["hist"].as_array().unwrap() {
+                st = apply(&pool, &st, op);
+            }
+            st
+        });
+        let st = match replay {
+            Ok(st) => st,
+            Err(m) => {
+                out.emit(&json!({"ev": "tr", "case": n, "stage": "hist", "ok": false, "panic": true, "msg": m}));
+                continue;
+            }
+        };
+        match guarded(|| observe(&pool, &st)) {
+            Ok(obs) => out.emit(&json!({"ev": "tr", "case": n, "stage": "hist", "ok": true, "panic": false, "obs": obs})),
+            Err(m) => out.emit(&json!({"ev": "tr", "case": n, "stage": "hist", "ok": false, "panic": true, "msg": m})),
+        }
+        for (k, op) in case["next"].as_array().unwrap().iter().enumerate() {
+            match guarded(|| observe(&pool, &apply(&pool, &st, op))) {
+                Ok(obs) => out.emit(&json!({"ev": "tr", "case": n, "stage": "next", "k": k + 1, "ok": true, "panic": false, "obs": obs})),
+                Err(m) => out.emit(&json!({"ev": "tr", "case": n, "stage": "next", "k": k + 1, "ok": false, "panic": true, "msg": m})),
+            }
+        }
+    }
+    out.flush();
+    0
 }
